@@ -23,7 +23,14 @@ META = {
                   "length <= 3/4 over {a b / * ?}, all pairs of length <= 1, the generalisations (?, *, ** at every position) "
                   "of every directory path, an escape class and sampled lists; glob()/os.glob() from two modules with every "
                   "single pattern of length <= 3/4 over {a x / * ?}, the generalisations of every file path as include and as "
-                  "exclude, and sampled include/exclude lists -- each compared with the model and with the recursive matcher.",
+                  "exclude, and sampled include/exclude lists -- each compared with the model and with the recursive matcher. "
+                  "WHICH strings the sets are asked about is exercised by a second project tree whose names have two or three "
+                  "characters over {a b .} (hidden directories included): every single ignore pattern of length <= 3/4 over "
+                  "{a b . / * ?}, every pair of length <= 1, and the generalisations of every PSEUDO-PATH of every directory "
+                  "(. ./ / // .. ./d /d //d d/ d/. d/.. ../d the absolute path, the base name, the parent, d/BUILD.dawn, the "
+                  "label) that do not match the empty path; the glob sweep gets the pseudo-paths of every file as include and as "
+                  "exclude. Theorem ignore_depends_only_on_directory_paths: two lists that agree on the paths of the directories "
+                  "on the way to the packages load the same packages.",
     "level_note": "Trusted: Coq kernel; Go's regexp engine is modelled (semantics of the emitted fragment) and validated "
                   "by the correspondence sweep only. Bytes stand for characters: theorems are stated for ASCII patterns "
                   "and paths; non-ASCII behaviour is probed on the implementation against a character-wise matcher. "
@@ -86,7 +93,7 @@ def to_wcase(f):
 def show_w(f):
     d = lambda l: [x.decode("latin-1") for x in l]
     if f[0] == "wload":
-        return {"kind": "Project.load with ignore list", "ignore": d(wlist(f[2])), "outcome": f[3], "loaded_packages": d(wlist(f[4]))}
+        return {"kind": "Project.load with ignore list", "tree": f[1], "ignore": d(wlist(f[2])), "outcome": f[3], "loaded_packages": d(wlist(f[4]))}
     return {"kind": f[2], "module_dir": "/".join(d(wlist(f[3]))), "include": d(wlist(f[4])), "exclude": d(wlist(f[5])),
             "result": d(wlist(f[7]))}
 
@@ -160,7 +167,7 @@ def run(ctx):
         elif f[0] == "wtree":
             wtrees[f[1]] = (wlist(f[2]), wlist(f[3]))
         elif f[0] == "wload":
-            k = "ignore sweep: " + ("load fails (invalid escape)" if f[3] == "err" else
+            k = ("ignore sweep: " if f[1] == "ignore" else "ignore sweep 2 (pseudo-paths): ") + ("load fails (invalid escape)" if f[3] == "err" else
                                     "shallowest matched directory at depth " + f[5])
             dist[k] = dist.get(k, 0) + 1
             wcases.append(f)
@@ -184,10 +191,15 @@ def run(ctx):
                             "ignore lists (every single pattern of length <= %s over {a b / * ?}, all pairs of length <= 1, the "
                             "generalisations of every directory path, an escape class, sampled lists) and %d glob()/os.glob() "
                             "calls from two modules of one file tree (every single pattern of length <= %s over {a x / * ?}, the "
-                            "generalisations of every file path as include and as exclude, sampled include/exclude lists)"
+                            "generalisations of every file path and of its pseudo-paths (./f /f absolute, base name, label, f/ ...) "
+                            "as include and as exclude, sampled include/exclude lists); a second project tree with names of 2-3 "
+                            "characters over {a b .} loaded under %d ignore lists (every single pattern of length <= %s over "
+                            "{a b . / * ?}, all pairs of length <= 1, the generalisations of every directory path and of every "
+                            "pseudo-path of it that do not match the empty path, sampled mixed lists)"
                             % (env["VERIF_MAXSINGLE"], env["VERIF_NTRIPLES"], npaths, tree_lines, len(probes),
-                               len([f for f in wcases if f[0] == "wload"]), wenv["VERIF_WALK_MAXLEN"],
-                               len([f for f in wcases if f[0] == "wglob"]), wenv["VERIF_WALK_MAXLEN"]))
+                               len([f for f in wcases if f[0] == "wload" and f[1] == "ignore"]), wenv["VERIF_WALK_MAXLEN"],
+                               len([f for f in wcases if f[0] == "wglob"]), wenv["VERIF_WALK_MAXLEN"],
+                               len([f for f in wcases if f[0] == "wload" and f[1] == "ignore2"]), wenv["VERIF_WALK_MAXLEN"]))
     ctx.coverage["exhaustive"] = True
     ctx.coverage["correspondence"]["distribution"] = dist
     ctx.coverage["correspondence"]["non_ascii_probes"] = [
